@@ -25,6 +25,9 @@ INPLACE_METHODS = {"fill", "sort", "put", "itemset", "resize", "partition", "set
 ARRAYISH_DEFS = (ast.Compare,)
 
 
+MODULE_ALIASES = {"np", "numpy", "pandas", "pd", "scipy", "sp", "math", "itertools", "os", "heapq", "bisect", "copy"}
+
+
 class Freshness:
     def __init__(self, fn, array_params=None):
         self.fn = fn
@@ -244,8 +247,8 @@ class Freshness:
                 elif isinstance(t, (ast.Name, ast.Attribute)):
                     out.append((n, t, "augmented-assignment"))
             elif isinstance(n, ast.Call):
-                if isinstance(n.func, ast.Attribute) and n.func.attr in INPLACE_METHODS:
-                    out.append((n, n.func.value, f".{n.func.attr}()"))
+                if isinstance(n.func, ast.Attribute) and n.func.attr in INPLACE_METHODS and not (isinstance(n.func.value, ast.Name) and n.func.value.id in MODULE_ALIASES):
+                    out.append((n, n.func.value, f".{n.func.attr}()"))      # np.append(a, x) / np.insert(..) build new arrays
                 for k in n.keywords:
                     if k.arg == "out":
                         out.append((n, k.value, "out="))
